@@ -21,6 +21,12 @@ class DiffUnsupported(Exception):
     pass
 
 
+def _mentions(atom_key, var_key):
+    """Does the (composite) atom key mention the variable atom? (token match: param:x is not in param:xd0)"""
+    import re
+    return re.search(r'(?<![\w])' + re.escape(var_key) + r'(?![\w])', atom_key) is not None
+
+
 class NaNForm:
     def key(self):
         return 'NAN'
@@ -354,7 +360,7 @@ class NFEval:
                 if self.is_zero(darg):
                     continue
                 dk = self.mul(self.atom(k), darg)        # d exp(a) = exp(a) da
-            elif key in k:
+            elif _mentions(k, key):
                 raise DiffUnsupported('opaque factor %s depends on %s' % (k[:60], key))
             else:
                 continue
